@@ -1,3 +1,4 @@
 -- root of the library: every property file (and through them every model and proof file)
 import AllfedModel.Props.C10
 import AllfedModel.Props.C18
+import AllfedModel.Props.C11
